@@ -7,6 +7,8 @@ src=${BW_REPO:-/repo}
 out=benign/RESULTS.md
 echo "| refactoring | what it does | checks that fire |" > $out.tmp
 echo "|---|---|---|" >> $out.tmp
+# with an id prefix: keep the rows of the other ids from the existing table
+if [ -n "${1:-}" ] && [ -f $out ]; then grep "^| r" $out | grep -v "^| $1" >> $out.tmp; fi
 fail=0
 for d in benign/*/; do
   id=$(basename $d)
